@@ -498,6 +498,12 @@ pub fn run(tier: Tier) -> i32 {
     run.assume("timestamps stay two days inside chrono's representable range: at the very limits chrono itself panics computing the local time (trusted-base limitation, not libhaystack code)");
     run.assume("Display is driven through write! (an Err from Display is 'an error', which the statement allows; `to_string()` would turn it into a panic of the caller)");
     crate::engine::quiet_panics();
+    {
+        let pool: Vec<V> = super::c01::probe_pool();
+        if super::common::probe_first(&mut run, "zinc-codec", &pool, &super::c01::zinc_observation, &|v: &V| crate::model::v::to_json(v)) {
+            return run.finish(&replay);
+        }
+    }
     let stack = 256 << 20;
 
     let mut vals = extreme_scalars();
@@ -620,6 +626,10 @@ pub fn run(tier: Tier) -> i32 {
 }
 
 pub fn replay(case: &J) -> Verdict {
+    if case["free_running"] == "zinc-codec" {
+        let pool: Vec<V> = super::c01::probe_pool();
+        return super::common::replay_probe(&pool, &super::c01::zinc_observation, &|v: &V| crate::model::v::to_json(v));
+    }
     if let Some(i) = case["exotic_unit"].as_u64() {
         let ev = exotic_unit_values();
         return match ev.get(i as usize).map(encode_all) {
